@@ -766,6 +766,20 @@ void *__wrap_malloc (size_t n) {
 	return (__real_malloc (n));
 }
 
+void *__real_calloc (size_t n, size_t m) __attribute__ ((weak));
+void *__wrap_calloc (size_t n, size_t m) {   /* an optimizer may fuse the constructors' malloc+memset into calloc */
+	const void *ra = __builtin_return_address (0);
+	if (mf_nr) {
+		int in = 0;
+		for (int i = 0; i < mf_nr; i++) if (ra >= mf_lo[i] && ra < mf_hi[i]) in = 1;
+		if (in) {
+			long k = __atomic_fetch_add (&mf_seen, 1, __ATOMIC_RELAXED);
+			if (k == __atomic_load_n (&mf_nth, __ATOMIC_ACQUIRE)) { __atomic_fetch_add (&mf_failed, 1, __ATOMIC_RELAXED); errno = ENOMEM; return (NULL); }
+		} else __atomic_fetch_add (&mf_other, 1, __ATOMIC_RELAXED);
+	}
+	return (__real_calloc (n, m));
+}
+
 /* ------------------------------------------------------------------------------------ */
 /* crashes and sanitizer deaths */
 void __sanitizer_set_death_callback (void (*cb) (void)) __attribute__ ((weak));
@@ -806,6 +820,7 @@ static void on_signal (int s, siginfo_t *si, void *uc) {
 
 /* ------------------------------------------------------------------------------------ */
 /* round driver */
+void nsv_cov_dump (void) __attribute__ ((weak));
 static pthread_barrier_t bar_start, bar_end;
 static int first_thread;
 
@@ -951,5 +966,6 @@ int main (int argc, char **argv) {
 	struct timespec t1; clock_gettime (CLOCK_MONOTONIC, &t1);
 	write_summary (r - start_round, (double) (t1.tv_sec - t0.tv_sec) + 1e-9 * (double) (t1.tv_nsec - t0.tv_nsec), samples, nsamples);
 	fflush (NULL);
+	if (nsv_cov_dump) nsv_cov_dump ();    /* coverage builds (development aid): _exit skips the atexit dump */
 	_exit (0);
 }
